@@ -33,6 +33,9 @@ pub struct Spec {
     pub only: Option<u64>,
     pub seed: u64,
     pub workers: usize,
+    /// per-mille of steps during which one underlying call (or handle read/write/flush) is made to fail
+    /// (C08: lower layers must stay untouched for failing calls as well)
+    pub fault_permille: u64,
 }
 
 pub fn relation(p: &str, op: &Op) -> &'static str {
@@ -331,7 +334,23 @@ fn run_history(spec: &Spec, idx: u64, acc: &mut Acc) {
         let exp = if contract_active { model.expect(&op) } else { Exp::Unspec };
 
         built.ctl.start_recording();
+        let faulted = spec.fault_permille > 0 && rng.chance(spec.fault_permille, 1000);
+        if faulted {
+            let writes = matches!(op, Op::AppendFile(..) | Op::CreateFile(..) | Op::CopyFile(..) | Op::MoveFile(..) | Op::CopyDir(..) | Op::MoveDir(..));
+            if writes && rng.chance(1, 2) {
+                built.ctl.arm(0, usize::MAX);
+                built.ctl.arm_handle(rng.range(1, 3) as u64);
+            } else if rng.chance(2, 3) {
+                built.ctl.arm(rng.range(1, 14) as u64, usize::MAX);
+            } else {
+                built.ctl.arm(rng.range(1, 45) as u64, usize::MAX);
+            }
+        }
         let res = exec(&built.root, &op);
+        if faulted {
+            let (_, inj, _, hinj) = built.ctl.disarm();
+            acc.count("steps_with_injected_fault", inj + hinj);
+        }
         let ev = built.ctl.stop_recording();
         built.ctl.start_recording();
         let after = snapshot(&built.root, &probe, read_buf);
@@ -469,12 +488,14 @@ fn run_history(spec: &Spec, idx: u64, acc: &mut Acc) {
         // ---- C10 tombstones, fresh re-creation, hidden bookkeeping
         if let Some(plan) = &h.plan {
             update_tombstones(&mut tombstones, plan, &op, &res, &pre_tree, &after);
+            let mut reported: Vec<String> = vec![];
             for t in &tombstones {
                 if let Some(o) = after.obs.get(t) {
                     let visible = o.exists != Ok(false) || o.meta.is_ok() || o.read.is_ok() || o.list.is_ok();
                     let listed = after.obs.get(&parent_of(t)).and_then(|po| po.list.as_ref().ok()).map(|l| l.contains(t)).unwrap_or(false);
                     let walked = after.walk.as_ref().map(|w| w.iter().any(|x| x.as_ref().ok() == Some(t))).unwrap_or(false);
                     if visible || listed || walked {
+                        reported.push(t.clone());
                         acc.violate(Violation {
                             property: "C10",
                             signature: format!("resurrected|by:{}|{}|rel:{}|{}", op.name(), clsig, relation(t, &op), h.family),
@@ -486,6 +507,10 @@ fn run_history(spec: &Spec, idx: u64, acc: &mut Acc) {
                 }
             }
             acc.count("tombstone_checks", tombstones.len() as u64);
+            // a resurrected entry is reported once, at the step that made it visible again
+            for r in reported {
+                tombstones.remove(&r);
+            }
             // fresh re-creation
             if res.is_ok() {
                 match &op {
@@ -596,11 +621,8 @@ fn check_markers(h: &Hist, step: usize, s: &Snap, acc: &mut Acc) {
 }
 
 fn update_tombstones(t: &mut BTreeSet<String>, plan: &Plan, op: &Op, res: &Res, pre: &Model, after: &Snap) {
-    if res.is_err() {
-        // a failed composite may still have removed parts; only what is observably gone and was lower counts
-        if !op.is_composite() {
-            return;
-        }
+    if res.is_err() && !op.is_composite() {
+        return;
     }
     let removed_root: Option<&str> = match op {
         Op::RemoveFile(p) | Op::RemoveDir(p) | Op::RemoveDirAll(p) => Some(p),
@@ -624,7 +646,9 @@ fn update_tombstones(t: &mut BTreeSet<String>, plan: &Plan, op: &Op, res: &Res, 
         // only entries that were visible before, are in a lower layer (or below a removed lower dir), and are gone now
         let lower_related = |p: &str| plan.lower_paths.contains(p) || plan.lower_paths.iter().any(|lp| is_under(p, lp));
         for c in cands {
-            if pre.m.contains_key(&c) && gone(&c) && lower_related(&c) && res.is_ok() {
+            // a successful removal makes every lower-related entry of the removed subtree a tombstone at once: it must
+            // be invisible right after the call (a failed composite only counts for what is observably gone)
+            if pre.m.contains_key(&c) && lower_related(&c) && (res.is_ok() || gone(&c)) {
                 t.insert(c);
             }
         }
